@@ -144,7 +144,8 @@ int kv_snprintf(char* str, size_t size, const char* fmt, ...)
                 sb_puts(&b, " Name: ");
                 for(i = 0; i < prec && i < 300 && name[i] != 0; i++){ sb_putc(&b, name[i]); k++; }
                 for(i = k; i < width; i++){ sb_putc(&b, ' '); }          /* %-*.*s : left justified */
-                sb_puts(&b, "  Len:  "); sb_dec_fixed(&b, len, 5); sb_puts(&b, "  Check: "); sb_dec_fixed(&b, chk, 4); sb_puts(&b, "  Weight: 1.00");
+                /* Len / Check are RECORDED (compared as numbers); the text carries placeholders of the right width */
+                sb_puts(&b, "  Len:      *  Check:    *  Weight: 1.00");
         }else{
                 kv_bad_format = 1;
         }
